@@ -5,6 +5,8 @@ pub mod c04;
 pub mod c05;
 pub mod c06;
 pub mod c08;
+pub mod c09;
+pub mod c10;
 pub mod c11;
 pub mod c12;
 pub mod c13;
@@ -24,6 +26,8 @@ pub fn run(prop: &str, tier: Tier) -> i32 {
         "C05" => c05::run(tier),
         "C06" => c06::run(tier),
         "C08" => c08::run(tier),
+        "C09" => c09::run(tier),
+        "C10" => c10::run(tier),
         "C11" => c11::run(tier),
         "C12" => c12::run(tier),
         "C13" => c13::run(tier),
@@ -46,6 +50,8 @@ pub fn replay(prop: &str, case: &Value) -> Vec<String> {
         "C05" => c05::replay(case),
         "C06" => c06::replay(case),
         "C08" => c08::replay("C08", case),
+        "C09" => c09::replay(case),
+        "C10" => c10::replay(case),
         "C11" => c11::replay(case),
         "C12" => c12::replay(case),
         "C13" => c13::replay(case),
